@@ -122,7 +122,19 @@ let op_semtok (args : str list) : str list =
       [ (if in_domain t then "1" else "0"); resp; lexemes; S.concat " " (List.map string_of_coq legend) ]
   | [] -> ["bad-args"]
 
-let ops : (str * (str list -> str list)) list ref = ref [ ("lex", op_lex); ("semtok", op_semtok) ]
+(* file decoding: bytes (hex) -> decoded text as UTF-8 hex, or "none" (UnsupportedEncoding) *)
+let hex_of_bytes (bs : n list) : str = S.concat "" (List.map (fun b -> Printf.sprintf "%02x" (int_of_n b)) bs)
+let op_decode (args : str list) : str list =
+  match args with
+  | h :: _ ->
+      let bs = List.map n_of_int (bytes_of_hex h) in
+      (match cascade decoders bs with
+       | None -> ["none"]
+       | Some t -> ["some"; hex_of_bytes (enc8 t)])
+  | [] -> ["bad-args"]
+
+let ops : (str * (str list -> str list)) list ref =
+  ref [ ("lex", op_lex); ("semtok", op_semtok); ("decode", op_decode) ]
 
 
 let () =
